@@ -660,19 +660,21 @@ def identity(node: ir.Node, op, state: OptimizerState) -> ReturnValue:
     input = node.inputs[0]
     output = node.outputs[0]
     if input is not None and output is not None:
-        # NOTE: backward shape inference
-        try:
-            input.shape = _merge_shapes(input.shape, output.shape)
-        except Exception as e:
-            logger.warning(
-                "[Constant folder] Cannot merge shapes on Identity node '%s' "
-                "(folded from: %s) because of error: %s",
-                node.name,
-                input.meta.get(FOLDED_FROM_KEY, set()),
-                e,
-            )
-        if input.type is None:
-            input.type = output.type
+        # NOTE: backward shape inference -- never onto a graph input: its declared type is part of
+        # the model's interface
+        if not input.is_graph_input():
+            try:
+                input.shape = _merge_shapes(input.shape, output.shape)
+            except Exception as e:
+                logger.warning(
+                    "[Constant folder] Cannot merge shapes on Identity node '%s' "
+                    "(folded from: %s) because of error: %s",
+                    node.name,
+                    input.meta.get(FOLDED_FROM_KEY, set()),
+                    e,
+                )
+            if input.type is None:
+                input.type = output.type
         state.set_sym_value(output, input)
     return None
 
